@@ -4038,3 +4038,30 @@ def _np_reciprocal(I, x, **kw):
     if is_z3(v) and z3.is_int(v):
         return z3.If(v == 1, 1, z3.If(v == -1, -1, 0))
     return 1 / to_real(v)
+
+
+# ---- field order of structured arrays ------------------------------------------
+class _DTypeOf:
+    def __init__(self, names):
+        self.names = tuple(names)
+
+
+@method("struct", "dtype", prop=True)
+def _struct_dtype(I, b):
+    return _DTypeOf(_val(b).fields.keys())
+
+
+_getattr_prev = getattr
+
+
+def getattr(I, base, attr, *a):          # noqa: A001,F811
+    if isinstance(base, _DTypeOf) and attr == "names":
+        return base.names
+    return _getattr_prev(I, base, attr, *a)
+
+
+@lib("spec.field_names")
+def _spec_field_names(I, arr):
+    """the field names of a structured array, in dtype order (numpy assigns
+    structured values to structured slots BY POSITION, so the order matters)"""
+    return list(_val(arr).fields.keys())
